@@ -351,6 +351,8 @@ class Exec:
         if isinstance(v, bm.SSeq):
             return SV("bool", v.n > 0)
         if isinstance(v, Opaque):
+            if v.kind in self.db.always_truthy:
+                return True
             f = self.uf("truthy_" + v.kind, z3sort(("u", v.kind)), z3.BoolSort())
             return SV("bool", f(v.t))
         if isinstance(v, (Obj, FuncRef, ClassRef, BuiltinRef, Closure, TypeRef, ModuleRef, ExcVal, EnumMember)):
